@@ -4,6 +4,7 @@ C13 — type-check errors are raised iff violated and describe the failure truth
 import JaxVerif.Spec.Calls
 import JaxVerif.Generated.Skeleton
 import JaxVerif.Lemmas.Errors
+import JaxVerif.Source.Wrappers
 
 namespace JV
 
@@ -69,5 +70,18 @@ theorem C13_annotation_error (sk : Skel) (w : WrapSkel) (hw : w.disableTestFirst
 /-- the source read today: AnnotationError handler first; message built from the current bindings -/
 theorem C13_generated_good :
     Generated.annErrFirst = some true ∧ Generated.messageCurrent = some true := by decide
+
+/-- **the handlers as written today are the model's**: the two `try … except AnnotationError: raise … except Exception`
+    blocks of `wrapped_fn_impl`, the blame step and the two `raise TypeCheckError(msg)` (whose text must end with the
+    CURRENT bindings, else the interpreter crashes), translated from the current source on this run, compute exactly
+    the model's step — for every verdict of either typechecker pass, every outcome of the re-check, both values of
+    the remove-stack switch. `C13_iff`, `C13_stage` and `C13_annotation_error` are therefore statements about the
+    code the source contains. -/
+theorem C13_source_wrapper (sk : Skel) (ps : List Param) (ret : Option (LType × Obj)) (bindOk noTc rs nw : Bool)
+    (body : List Prog) (e : Exit) (st : TState) :
+    runWrapper ⟨sk, ps, ret, bindOk, noTc, runProgs sk goodWrap body, e, rs, nw, none, .plain, Generated.newImplCode⟩
+        Generated.newWrapperCode st
+      = some (runProg sk goodWrap (.call .newStyle ps ret bindOk noTc body e) st) :=
+  source_runProg_call ..
 
 end JV
